@@ -45,11 +45,15 @@ def conditions(tier):
                              % ', '.join(H.GTYPES)))
     else:
         for pt in range(NG):
+            full = pt in (0, 3, 7, 9)
             for oi in (False, True):
                 conds.append(ch.Cond('h_c12', 'property_flags', [('flags', 'int'), ('has_default', 'bool'), ('high', 'int')],
-                                     pre=['0 <= flags <= 4095', '0 <= high < %d' % len(H.HIGH)], fixed=dict(ptype=pt, on_interface=oi), timeout=T,
+                                     pre=['0 <= flags <= %d' % (4095 if full else 63),
+                                          'high in (0, 2)' if full else '0 <= high < %d' % len(H.HIGH)],
+                                     fixed=dict(ptype=pt, on_interface=oi), timeout=T,
                                      name='property_flags[%s,%s]' % (H.GTYPES[pt], 'interface' if oi else 'class'),
-                                     bounds='every flag word 0..4095 x default value, property GType %s' % H.GTYPES[pt]))
+                                     bounds='flag words 0..%d x high parts x default value, property GType %s'
+                                     % (4095 if full else 63, H.GTYPES[pt])))
     # signals
     flags4 = [('no_recurse', 'bool'), ('detailed', 'bool'), ('action', 'bool'), ('no_hooks', 'bool')]
     conds.append(ch.Cond('h_c12', 'signals', [('when', 'int')] + flags4 + [('rtype', 'int')],
